@@ -70,7 +70,14 @@ func (p *packetizer) Packetize(payload []byte, samples uint32) []*Packet {
 		return nil
 	}
 
-	payloads := p.Payloader.Payload(p.MTU-12, payload)
+	headerSize := uint16(12)
+	if p.extensionNumbers.AbsSendTime != 0 {
+		// the last packet also carries a one byte header extension
+		// holding the 3 byte abs-send-time (4 + 1 + 3 octets)
+		headerSize += 8
+	}
+
+	payloads := p.Payloader.Payload(p.MTU-headerSize, payload)
 	packets := make([]*Packet, len(payloads))
 
 	for i, pp := range payloads {
